@@ -468,7 +468,8 @@ def check_c1(ctx, impl, cases):
             ctx.nontrivial((c["seed"], json.dumps(c["params"], sort_keys=True), json.dumps(c.get("script"))))
         ctx.kind(f"sessions:{'1' if n_sess == 1 else '2-4' if n_sess <= 4 else '5-20' if n_sess <= 20 else '21+'}",
                  f"choices:{min(len(r['choices']), 3)}{'+' if len(r['choices']) > 3 else ''}",
-                 f"levels:{min(len(r['orders']), 4)}")
+                 f"levels:{min(len(r['orders']), 4)}",
+                 "level-order:" + ("sorted" if all(o == sorted(o) for o in r["orders"]) else "not-sorted"))
         ctx.traces_validated += 1
         # --- specification on the implementation's own model -----------------------------------------------
         dsc_mand = 0x10 in lists[2]
@@ -535,7 +536,7 @@ def seeded_cases(ctx, ALL):
     rng = ctx.rng
     cases = []
     # defaults, many seeds
-    for seed in range(ctx.pick(12, 60)):
+    for seed in range(ctx.pick(30, 200)):
         cases.append({"label": "seeded:default-arguments", "seed": seed, "params": {}})
     # extreme probabilities x lists
     for ps in (0.0, 1.0, 50.0):
@@ -547,7 +548,7 @@ def seeded_cases(ctx, ALL):
         (list(range(N_SESS)), list(range(N_SESS)), ALL[:], ALL[:]), {"p_session": 3.0, "p_service": 0.5, "p_sub_function": 0.1})})
     cases.append({"label": "seeded:empty-lists", "seed": 6, "params": mk_params(([], [], [], []), {})})
     cases.append({"label": "seeded:empty-lists", "seed": 6, "params": mk_params(([], [], [0x10], []), {"p_session": 1.0})})
-    for _ in range(ctx.pick(110, 1500)):
+    for _ in range(ctx.pick(400, 4000)):
         lists = gen_lists(rng, ALL)
         probs = gen_probs(rng)
         seed = rng.choice([rng.randrange(100), rng.randrange(2 ** 63), 0, -rng.randrange(1000)])
@@ -570,7 +571,7 @@ def check_c2(ctx, impl, c1_cases, c1_results):
               if c.get("script") is None and r["error"] is None and c["label"] == "seeded:random-arguments"
               and len(r["floats"]) < 20000]
     rng.shuffle(picked)
-    for c in picked[: ctx.pick(6, 40)]:
+    for c in picked[: ctx.pick(14, 60)]:
         cfgs.append({"seed": c["seed"], "params": {**c["params"], "p_identifier": rng.choice([0.005, 0.5, 1.0]),
                                                    "p_correct_payload_format": rng.choice([0.1, 0.9])}})
     # histories from the in-process model
@@ -636,7 +637,7 @@ def run(ctx):
     ALL = all_services()
     ctx.rule = ("C1: one case = (seed, RandomnessParameters) or (scripted draw stream, arguments); counted as non-trivial when "
                 "the resulting model has >= 2 sessions or >= 2 services. C2: one evaluation = one (configuration, environment) transcript")
-    cases = seeded_cases(ctx, ALL) + scripted_cases(ctx)
+    cases = scripted_cases(ctx) + seeded_cases(ctx, ALL)  # small universes first: first disagreement per key is small
     results = check_c1(ctx, impl, cases)
     ok = [(c, r) for c, r in zip(cases, results) if r["error"] is None and c.get("script") is None]
     if ok:
